@@ -3,10 +3,10 @@
 # change (seeded/*) through its property's check and writes evidence/sensitivity.json.
 set -u
 V="$(cd "$(dirname "$0")/.." && pwd)"; TIER="${1:-quick}"; OUT="$V/evidence/sensitivity.txt"; : > "$OUT"
-for f in "$V"/mutants/C*.txt; do
-  p="$(basename "$f" .txt)"
-  "$V/tools/mutants.sh" "$p" "$TIER" 2>&1 | sed "s/^/$p mutant /" | tee -a "$OUT"
-done
+# PAR properties at a time (default 4); each property's mutants run one after the other
+PAR="${PAR:-4}"; TMPD="$(mktemp -d /tmp/sens.XXXXXX)"
+ls "$V"/mutants/C*.txt | xargs -P "$PAR" -I{} bash -c 'p="$(basename "{}" .txt)"; "'"$V"'/tools/mutants.sh" "$p" "'"$TIER"'" 2>&1 | sed "s/^/$p mutant /" > "'"$TMPD"'/$p.txt"'
+cat "$TMPD"/C*.txt | tee -a "$OUT"; rm -rf "$TMPD"
 python3 - "$OUT" "$V" "$TIER" <<'PY'
 import sys,json,re,glob,os
 out,V,tier=sys.argv[1:]
